@@ -1072,3 +1072,132 @@ class JoinGraphs(Gen):
         c = make_case(cid, tables, Q(sql, m, [(names[0], "int"), (names[1], "int")]), tags=[kind, f"n{n}"])
         c["graph"] = {"rels": [als[i] for i in range(n)], "edges": [[als[a], als[b]] for (a, b) in edges]}
         return c
+
+
+# ---------------------------------------------------------------------------------------------
+# VALUES lists (C44) and GROUPING SETS / ROLLUP / CUBE (C27)
+class ValuesGen(Gen):
+    def vals(self, first_null_ok=False):
+        r = self.rng
+        ncols = r.randint(1, 3)
+        nrows = r.randint(1, 4)
+        types = [r.choice(["int", "int", "str", "dbl", "bool", "date"]) for _ in range(ncols)]
+        rows = []
+        for i in range(nrows):
+            row = []
+            for t in types:
+                v = self.value(t)
+                if i == 0 and v is None and not first_null_ok:
+                    v = self.value(t, nullable=False)
+                row.append(v)
+            rows.append(row)
+        sql = "VALUES " + ", ".join("(" + ", ".join(lit_sql(t, v) for t, v in zip(types, row)) + ")" for row in rows)
+        return sql, [[mv(v) for v in row] for row in rows], types
+
+    def case(self, cid):
+        r = self.rng
+        self.tables = self.db()
+        kind = r.choice(["bare", "bare", "from", "from_where", "join", "in"])
+        vsql, vrows, types = self.vals(first_null_ok=(r.random() < 0.15))
+        if kind == "bare":
+            m = {"k": "values", "rows": vrows, "order": [], "limit": -1, "offset": 0}
+            return make_case(cid, self.tables, Q(vsql, m, [(f"column{i}", t) for i, t in enumerate(types)]), tags=["bare"])
+        al = self.fresh("v")
+        vcols = [Col(al, f"column{i}", t) for i, t in enumerate(types)]
+        fsql, fm = f"({vsql}) AS {al}", {"k": "values", "rows": vrows}
+        if kind in ("from", "from_where"):
+            sc = Scope(vcols)
+            proj = [sc.ref(0, i) for i in range(len(vcols))]
+            r.shuffle(proj)
+            where = self.pred(sc, 1) if kind == "from_where" else None
+            names = [self.fresh("k") for _ in proj]
+            sql = "SELECT " + ", ".join(f"{e.sql} AS {n}" for e, n in zip(proj, names)) + f" FROM {fsql}" + (f" WHERE {where.sql}" if where else "")
+            order_m = []
+            if r.random() < 0.5 and proj[0].t != "bool":
+                sql += f" ORDER BY {names[0]}"
+                order_m = [{"e": proj[0].m, "desc": 0, "nf": 0}]
+            m = {"k": "select", "from": fm, "where": where.m if where else TRUE_M, "group": {"on": 0}, "proj": [e.m for e in proj],
+                 "distinct": 0, "order": order_m, "limit": -1, "offset": 0}
+            return make_case(cid, self.tables, Q(sql, m, [(n, e.t) for e, n in zip(proj, names)]), tags=[kind])
+        t = self.tables[0]
+        a0 = self.fresh("x")
+        tcols = [Col(a0, n, ty, base=True) for (n, ty) in t.cols]
+        if kind == "join":
+            sc = Scope(tcols + vcols)
+            pairs = [(i, j) for i, a in enumerate(tcols) for j, b in enumerate(vcols) if a.t == b.t and a.t != "bool"]
+            if not pairs:
+                return self.case(cid)
+            i, j = r.choice(pairs)
+            a, b = sc.ref(0, i), sc.ref(0, len(tcols) + j)
+            on = E(f"({a.sql} = {b.sql})", {"k": "cmp", "op": "=", "a": a.m, "b": b.m}, "bool")
+            jk = r.choice(["inner", "left"])
+            proj = [a, sc.ref(0, len(tcols) + (j + 1) % len(vcols))]
+            names = [self.fresh("k") for _ in proj]
+            sql = "SELECT " + ", ".join(f"{e.sql} AS {n}" for e, n in zip(proj, names)) + f" FROM {t.name} AS {a0} {'INNER' if jk == 'inner' else 'LEFT'} JOIN {fsql} ON {on.sql}"
+            m = {"k": "select", "from": {"k": "join", "kind": jk, "l": {"k": "table", "name": t.name}, "r": fm, "on": on.m, "ln": len(tcols), "rn": len(vcols)},
+                 "where": TRUE_M, "group": {"on": 0}, "proj": [e.m for e in proj], "distinct": 0, "order": [], "limit": -1, "offset": 0}
+            return make_case(cid, self.tables, Q(sql, m, [(n, e.t) for e, n in zip(proj, names)]), tags=[kind])
+        # IN (VALUES ...): single int column
+        ints = [c for c in range(len(tcols)) if tcols[c].t == "int"]
+        if not ints:
+            return self.case(cid)
+        sc = Scope(tcols)
+        a = sc.ref(0, r.choice(ints))
+        vals = [[r.randint(0, 2)] for _ in range(r.randint(1, 3))]
+        vs = "VALUES " + ", ".join(f"({v[0]})" for v in vals)
+        qm = {"k": "values", "rows": vals, "order": [], "limit": -1, "offset": 0}
+        neg = 0
+        w = E(f"({a.sql} IN ({vs}))", {"k": "insub", "a": a.m, "q": qm, "neg": neg}, "bool")
+        names = [self.fresh("k")]
+        sql = f"SELECT {a.sql} AS {names[0]} FROM {t.name} AS {a0} WHERE {w.sql}"
+        m = {"k": "select", "from": {"k": "table", "name": t.name}, "where": w.m, "group": {"on": 0}, "proj": [a.m], "distinct": 0,
+             "order": [], "limit": -1, "offset": 0}
+        return make_case(cid, self.tables, Q(sql, m, [(names[0], "int")]), tags=[kind])
+
+
+class GroupingSetsGen(Gen):
+    def case(self, cid):
+        import itertools
+        r = self.rng
+        self.tables = [self.table("t0", 0, ncols=r.randint(3, 4))]
+        t = self.tables[0]
+        a0 = self.fresh("x")
+        cols = [Col(a0, n, ty, base=True) for (n, ty) in t.cols]
+        sc = Scope(cols)
+        keyable = [i for i, c in enumerate(cols) if c.t in ("int", "i32", "str", "date", "dbl")]
+        nk = min(len(keyable), r.randint(1, 3))
+        kidx = r.sample(keyable, nk)
+        keys = [sc.ref(0, i) for i in kidx]
+        form = r.choice(["rollup", "cube", "sets", "sets"])
+        allk = list(range(1, nk + 1))
+        if form == "rollup":
+            sets = [allk[:i] for i in range(nk, -1, -1)]
+            gsql = "ROLLUP(" + ", ".join(k.sql for k in keys) + ")"
+        elif form == "cube":
+            sets = [list(s) for n in range(nk, -1, -1) for s in itertools.combinations(allk, n)]
+            gsql = "CUBE(" + ", ".join(k.sql for k in keys) + ")"
+        else:
+            pool = [list(s) for n in range(0, nk + 1) for s in itertools.combinations(allk, n)]
+            sets = [r.choice(pool) for _ in range(r.randint(1, 3))]
+            gsql = "GROUPING SETS (" + ", ".join("(" + ", ".join(keys[i - 1].sql for i in s) + ")" for s in sets) + ")"
+        numeric = [i for i, c in enumerate(cols) if c.t in ("int", "i32", "dbl")]
+        aggs = [E("COUNT(*)", {"f": "count*", "a": TRUE_M, "distinct": 0}, "int")]
+        if numeric:
+            a = sc.ref(0, r.choice(numeric))
+            f = r.choice(["sum", "min", "max", "count"])
+            aggs.append(E(f"{f.upper()}({a.sql})", {"f": f, "a": a.m, "distinct": 0}, "int" if f == "count" or a.t == "i32" and f == "sum" else a.t))
+        # group row layout: keys ++ aggs ++ mask
+        gcols = [Col(None, k.sql, k.t) for k in keys] + [Col(None, a.sql, a.t) for a in aggs]
+        g = Scope(gcols)
+        proj = [g.ref(0, i) for i in range(len(gcols))]
+        if r.random() < 0.7:
+            ks = r.sample(range(1, nk + 1), r.randint(1, nk))
+            proj.append(E("GROUPING(" + ", ".join(keys[i - 1].sql for i in ks) + ")", {"k": "grouping", "keys": ks}, "int"))
+        names = [self.fresh("k") for _ in proj]
+        where = self.pred(sc, 0) if r.random() < 0.3 else None
+        sql = "SELECT " + ", ".join(f"{e.sql} AS {n}" for e, n in zip(proj, names)) + f" FROM {t.name} AS {a0}" + \
+              (f" WHERE {where.sql}" if where else "") + f" GROUP BY {gsql}"
+        m = {"k": "select", "from": {"k": "table", "name": t.name}, "where": where.m if where else TRUE_M,
+             "group": {"on": 1, "keys": [k.m for k in keys], "aggs": [a.m for a in aggs], "having": TRUE_M, "sets": sets if sets else [[]]},
+             "proj": [e.m for e in proj], "distinct": 0, "order": [], "limit": -1, "offset": 0}
+        return make_case(cid, self.tables, Q(sql, m, [(n, e.t) for e, n in zip(proj, names)]), tags=[form])
